@@ -4,7 +4,7 @@
 #   tools/mkcopy.sh            -> /tmp/mrepo (worktree of /repo HEAD) + /tmp/mverif (copy of /verif pointing at it)
 # Remove both when done:  git -C /repo worktree remove --force /tmp/mrepo; rm -rf /tmp/mverif
 set -e
-if [ -d /tmp/mrepo ]; then git -C /tmp/mrepo checkout -q --detach "$(git -C /repo rev-parse HEAD)"; else git -C /repo worktree add -q --detach /tmp/mrepo HEAD; fi
+if [ -d /tmp/mrepo ]; then git -C /tmp/mrepo checkout -q --detach "${MREPO_REV:-$(git -C /repo rev-parse HEAD)}"; else git -C /repo worktree add -q --detach /tmp/mrepo HEAD; fi
 mkdir -p /tmp/mverif
 rsync -a --delete --exclude target --exclude .cargo-home --exclude .git --exclude run --exclude replays /verif/ /tmp/mverif/
 cd /tmp/mverif
